@@ -45,7 +45,7 @@ func (it *Interp) Reset() {
 	}
 	it.progs = map[string]string{}
 	for _, p := range ps {
-		it.progs[p.Key] = Text(p.Body)
+		it.progs[p.Key] = NextText(p.NextVia) + " " + Text(p.Body)
 	}
 }
 
